@@ -4,7 +4,7 @@
    breaks one of these proofs. *)
 From Coq Require Import List ZArith Bool String.
 Import ListNotations.
-Require Import Base Show InvModel InvCode Invariant.
+Require Import Base Show InvModel InvCode Invariant Invariants.
 
 Lemma validate_is_check cls invs s : validate code cls invs s = check cls invs s.
 Proof.
@@ -33,17 +33,61 @@ Lemma getattribute_deal_attrs :
           ["_deal_validate"; "_deal_patched_method"; ATTR] = true.
 Proof. reflexivity. Qed.
 
+Lemma call_through_patched cls invs method s :
+  call_through code cls invs method s =
+  Some (match check cls invs s with
+        | Some e => (s, e)
+        | None => match method s with
+                  | (s1, inr e) => (s1, e)
+                  | (s1, inl v) => match check cls invs s1 with Some e => (s1, e) | None => (s1, Ok v) end
+                  end
+        end).
+Proof.
+  unfold call_through. rewrite getattribute_method. cbn [c_patched code exec_patched]. rewrite validate_is_check.
+  destruct (check cls invs s) as [e|]; [reflexivity|].
+  destruct (method s) as [s1 [v|e]]; [|reflexivity]. rewrite validate_is_check. destruct (check cls invs s1); reflexivity.
+Qed.
+Lemma inner_items_is_run_inner_items cls invs l : forall s, inner_items code cls invs s l = run_inner_items cls invs s l.
+Proof.
+  induction l as [|[raw [n v]] t IH]; intro s; cbn [inner_items run_inner_items]; [reflexivity|].
+  destruct raw; [apply IH|]. rewrite setattr_is_store_then_check. destruct (check cls invs (set_attr s n v)); [reflexivity|apply IH].
+Qed.
+Lemma inner_through_is_inner_call cls invs items rs s :
+  call_through code cls invs (inner_method code cls invs items rs) s =
+  Some (fst (inner_call cls invs s items rs), match snd (inner_call cls invs s items rs) with Some e => e | None => Ok VNone end).
+Proof.
+  rewrite call_through_patched. unfold inner_call, inner_method. rewrite inner_items_is_run_inner_items.
+  destruct (check cls invs s) as [e|]; [reflexivity|].
+  destruct (run_inner_items cls invs s items) as [s1 [e|]]; [reflexivity|].
+  destruct rs; [reflexivity|]. cbn [fst snd]. destruct (check cls invs s1); reflexivity.
+Qed.
+Lemma inner_call_not_ok cls invs s items rs s1 v : inner_call cls invs s items rs = (s1, Some (Ok v)) -> False.
+Proof. intro H. apply inner_call_err in H. discriminate. Qed.
+Lemma body_items_is_run_body cls invs l : forall s, body_items code cls invs s l = Some (run_body cls invs s l).
+Proof.
+  induction l as [|[n v|n v|items rs] t IH]; intro s; cbn [body_items run_body]; [reflexivity| | |].
+  - rewrite setattr_is_store_then_check. destruct (check cls invs (set_attr s n v)); [reflexivity|apply IH].
+  - apply IH.
+  - rewrite inner_through_is_inner_call. destruct (inner_call cls invs s items rs) as [s1 [e|]] eqn:E; cbn [fst snd]; [|apply IH].
+    destruct e; [exfalso; eapply inner_call_not_ok; exact E|reflexivity|reflexivity].
+Qed.
+
 Theorem step_code_is_step cls invs s o : step_code code cls invs s o = Some (step cls invs s o).
 Proof.
-  destruct o as [n v|sets raises ret|ret|b]; cbn [step_code step].
+  destruct o as [n v|sets raises ret|ret|b|body raises ret]; cbn [step_code step].
   - rewrite setattr_is_store_then_check. destruct (check cls invs (set_attr s n v)); reflexivity.
-  - rewrite getattribute_method. cbn [c_patched code exec_patched]. rewrite validate_is_check.
+  - rewrite call_through_patched.
     destruct (check cls invs s) as [e|]; [reflexivity|].
     unfold call_method. rewrite body_sets_is_run_sets.
     destruct (run_sets cls invs s sets) as [s1 [e|]]; [reflexivity|].
-    destruct raises; [reflexivity|]. rewrite validate_is_check. destruct (check cls invs s1); reflexivity.
+    destruct raises; [reflexivity|]. destruct (check cls invs s1); reflexivity.
   - rewrite getattribute_other. reflexivity.
   - reflexivity.
+  - rewrite getattribute_method. rewrite call_through_patched.
+    destruct (check cls invs s) as [e|]; [reflexivity|].
+    unfold body_method. rewrite body_items_is_run_body.
+    destruct (run_body cls invs s body) as [s1 [e|]]; [reflexivity|].
+    destruct raises; [reflexivity|]. destruct (check cls invs s1); reflexivity.
 Qed.
 
 (* a whole history *)
